@@ -162,8 +162,27 @@ def extend(role, prefix, depth):
     return rec(m, list(prefix))
 
 
+# valid prefixes that lead into the states a short exhaustive sweep does not reach
+# (release, release collision on both sides, awaiting close); every history of
+# DEEP_DEPTH further stimuli is enumerated from each of them
+DEEP = {
+    'acceptor': [['pRQ', 'uAC', 'uRELRQ'], ['pRQ', 'uAC', 'pRELRQ'], ['pRQ', 'uAC', 'uRELRQ', 'pRELRQ'],
+                 ['pRQ', 'uAC', 'uRELRQ', 'pRELRQ', 'pRELRP'], ['pRQ', 'uAC', 'pPART'],
+                 ['pRQ', 'uAC', 'pPART', 'uRELRQ'], ['pRQ', 'uAC', 'pRELRQ', 'uRELRP'],
+                 ['pRQ', 'uAC', 'uRELRQ', 'pRELRQ', 'pRELRP', 'uRELRP']],
+    'requestor': [['pAC', 'uRELRQ'], ['pAC', 'pRELRQ'], ['pAC', 'uRELRQ', 'pRELRQ'],
+                  ['pAC', 'uRELRQ', 'pRELRQ', 'uRELRP'], ['pAC', 'pPART'], ['pAC', 'pPART', 'uRELRQ'],
+                  ['pAC', 'pRELRQ', 'uRELRP'], ['pAC', 'uDATA2', 'pPART', 'pRELRQ']],
+}
+DEEP_DEPTH = {'quick': 2, 'thorough': 4}
+
+
 def plan(tier, seed):
     specs = []
+    for role in ('acceptor', 'requestor'):
+        for prefix in DEEP[role]:
+            specs.append({'name': 'enum', 'parts': [(role, prefix)],
+                          'depth': len(prefix) + DEEP_DEPTH[tier]})
     work = []
     for role in ('acceptor', 'requestor'):
         for p in prefixes(role, 2):
@@ -183,7 +202,8 @@ def run_shard(spec, tier, seed):
         for role, prefix in spec['parts']:
             for hist in extend(role, prefix, spec['depth']):
                 run_history(res, {'role': role, 'history': hist})
-        res.notes['exhaustive_depth'] = spec['depth']
+        res.notes['exhaustive_to_depth'] = ['%s%s: %d' % (role[0], '/'.join(prefix), spec['depth'])
+                                            for role, prefix in spec['parts']][:40]
     else:
         for i in range(spec['lo'], spec['hi']):
             run_history(res, random_walk(seed, i))
@@ -324,6 +344,61 @@ def run_history(res, case, verbose=False):
     res.count('sim.quiescent-points', sim.quiescent_points)
     res.count('sim.blocking-recvs', sim.blocking_recvs)
     judge(res, case, sim, expected, expected_bytes, hist, role)
+    coalesced_variant(res, case, expected, hist, role)
+
+
+def coalesced_variant(res, case, expected, hist, role):
+    """The same history with every run of consecutive peer stimuli (PDUs and a
+    trailing close / reset) delivered as ONE segment, and - for the acceptor -
+    the first segment already waiting when the loop starts.  The model is the
+    same: a peer's byte stream means the same however it is delivered."""
+    groups = []
+    i = 0
+    while i < len(hist):
+        if hist[i] in F.PEER:
+            j = i
+            while j < len(hist) and hist[j] in F.PEER:
+                j += 1
+            grp = hist[i:j]
+            if j < len(hist) and hist[j] in ('pCLOSE', 'pRESET'):
+                grp = grp + [hist[j]]
+                j += 1
+            groups.append(grp)
+            i = j
+        else:
+            groups.append([hist[i]])
+            i += 1
+    pending = role == 'acceptor' and bool(groups) and groups[0][0] in F.PEER
+    if not pending and all(len(g) == 1 for g in groups):
+        return
+    script = []
+    expected_bytes = {}
+    if role == 'requestor':
+        obj, raws = F.user_primitive('uRQ')
+        script.append(('user', obj))
+        expected_bytes['uRQ'] = raws
+    checkpoints = [] if pending else [0]
+    done = 0
+    for grp in groups:
+        done += len(grp)
+        checkpoints.append(done)
+        if grp[0] in F.PEER:
+            blob = b''.join(F.PEER[s] for s in grp if s in F.PEER)
+            kind = 'bytes'
+            if grp[-1] == 'pCLOSE':
+                kind = 'bytes+close'
+            elif grp[-1] == 'pRESET':
+                kind = 'bytes+reset'
+            script.append((kind, blob))
+        else:
+            sub, eb = build_script('acceptor', grp)
+            script.extend(sub)
+            expected_bytes.update(eb)
+    sim = simnet.Sim(role, script, first_pending=pending)
+    sim.run()
+    res.count('oracle.coalesced-run')
+    judge(res, dict(case, variant='coalesced'), sim, expected, expected_bytes, hist, role,
+          checkpoints=checkpoints, variant='coalesced%s' % ('+pending' if pending else ''))
 
 
 def res_sig(role, hist):
@@ -338,15 +413,20 @@ def cell_key(snap):
     return 'Sta%d/Evt%d' % (cell[1], cell[0])
 
 
-def judge(res, case, sim, expected, expected_bytes, hist, role):
+def judge(res, case, sim, expected, expected_bytes, hist, role, checkpoints=None, variant=''):
     # the trace has one snapshot per processed stimulus; the requestor's setup
-    # stimulus (uRQ) is snapshot 1
+    # stimulus (uRQ) is snapshot 1.  checkpoints: for each snapshot (after the
+    # offset) the number of history symbols whose effects it must show.
     offset = 1 if role == 'requestor' else 0
     trace = sim.trace
     nsteps = len(hist)
-    for k in range(0, nsteps + 1):
+    if checkpoints is None:
+        checkpoints = list(range(0, nsteps + 1))
+    if variant:
+        role = '%s, %s delivery' % (role, variant)
+    for n, k in enumerate(checkpoints):
         want = expected[k]
-        idx = k + offset
+        idx = n + offset
         label = hist[k - 1] if k else '(start)'
         if idx >= len(trace):
             # the run ended before this stimulus settled
